@@ -12,10 +12,16 @@ XInit(e) == e
 
 RpOK(c, e) == (Supported(c) /\ ~c.bad) => e.rp      \* what was written is CSV again
 
-XAllowed(c, e) == e.ev = "csv" /\ Allowed(c, e) /\ RpOK(c, e)
+\* e.i = 0: the only call of the case; e.i >= 1: i-th call with the SAME codec value (c.calls[i] is its input)
+Cfg(c, e) == IF e.i = 0 THEN c ELSE CallCfg(c, e.i)
+
+XAllowed(c, e) == e.ev = "csv" /\ (e.i > 0 => e.i <= Len(c.calls)) /\ Allowed(Cfg(c, e), e) /\ RpOK(Cfg(c, e), e)
 
 XWhy(c, e) == IF e.ev # "csv" THEN "unknown-event"
-              ELSE IF ~Allowed(c, e) THEN WhyNot(c, e) ELSE "output-not-csv"
+              ELSE IF ~Allowed(Cfg(c, e), e)
+                   THEN (IF e.i > 1 /\ WhyNot(Cfg(c, e), e) \in {"records-differ", "unexpected-error"}
+                         THEN "codec-reuse-differs-from-first-call" ELSE WhyNot(Cfg(c, e), e))
+                   ELSE "output-not-csv"
 
 XStep(c, e) == c
 
